@@ -22,7 +22,8 @@ EXPLANATION = (
     "tests hold the sign conditions of the cone; (R10) the margins that drive the initial shift are the documented functions "
     "(SOC: z0 - |z[1..]| over the whole tail)."
     " (R11) backtrack_search returns zero (only below the floor) or the alpha whose trial point has just passed the membership test - no untested exit."
-    " (R12) nonnegative-cone ratio test: component i limits the step iff its direction is < 0 exactly (no tolerance, no <=), by -z_i/dz_i; same for s.")
+    " (R12) nonnegative-cone ratio test: component i limits the step iff its direction is < 0 exactly (no tolerance, no <=), by -z_i/dz_i; same for s."
+    " (R13) the quadratic root of the second-order cone step length is formed without cancellation (t = -b - sqrt(d) iff b >= 0).")
 ASSUMPTIONS = [
     'rustc MIR construction and trait resolution are correct',
     'alpha_max >= 0; 0 <= linesearch_backtrack_step <= 1 (settings are not validated by the crate)',
@@ -47,3 +48,4 @@ def run(ctx, rep, tier):
         steplen.margins_definitions(rep, F, E, tag, 'C15.R10')
         steplen.backtrack_validated(rep, F, tag, 'C15.R11')
         steplen.nn_ratio_test(rep, F, tag, 'C15.R12')
+        steplen.soc_stable_root(rep, F, tag, 'C15.R13')
